@@ -75,10 +75,34 @@ func (m *machine) registerReplacements() {
 		"(*encoding/json.Encoder).SetIndent":             "JSONEncoderSetIndent",
 		"(*encoding/json.Encoder).SetEscapeHTML":         "JSONEncoderSetEscapeHTML",
 
-		"context.Background":  "CtxBackground",
-		"context.TODO":        "CtxBackground",
-		"context.WithCancel":  "CtxWithCancel",
-		"context.WithTimeout": "CtxWithTimeout",
+		"internal/bytealg.CountString":         "BACountString",
+		"internal/bytealg.Count":               "BACount",
+		"internal/bytealg.IndexByte":           "BAIndexByte",
+		"internal/bytealg.IndexByteString":     "BAIndexByteString",
+		"internal/bytealg.LastIndexByte":       "BALastIndexByte",
+		"internal/bytealg.LastIndexByteString": "BALastIndexByteString",
+		"internal/bytealg.IndexString":         "BAIndexString",
+		"internal/bytealg.Index":               "BAIndex",
+		"internal/bytealg.Equal":               "BAEqual",
+		"internal/bytealg.Compare":             "BACompare",
+
+		"time.NewTimer":       "TimeNewTimer",
+		"time.AfterFunc":      "TimeAfterFunc",
+		"(*time.Timer).Stop":  "TimerStop",
+		"(*time.Timer).Reset": "TimerReset",
+		"time.NewTicker":      "TimeNewTicker",
+		"(*time.Ticker).Stop": "TickerStop",
+		"time.Tick":           "TimeTick",
+
+		"context.Background":    "CtxBackground",
+		"context.TODO":          "CtxBackground",
+		"context.WithCancel":    "CtxWithCancel",
+		"context.WithTimeout":   "CtxWithTimeout",
+		"context.WithDeadline":  "CtxWithDeadline",
+		"context.WithValue":     "CtxWithValue",
+		"context.WithoutCancel": "CtxWithoutCancel",
+		"context.Cause":         "CtxCause",
+		"context.AfterFunc":     "CtxAfterFunc",
 	} {
 		m.replace(name, repl)
 	}
